@@ -2235,6 +2235,11 @@ parse_citation:
 			break;
 
 		case PAIR_RAW_FILTER:
+			// A "{=...}" that follows no code span is text: its characters need
+			// the same escaping as any other text
+			mmd_export_token_tree_opendocument(out, source, t->child, scratch);
+			break;
+
 		case RAW_FILTER_LEFT:
 		case TEXT_BACKSLASH:
 		case TEXT_BRACE_LEFT:
